@@ -136,6 +136,16 @@ Theorem C07_source_registry_search : ltac:(let t := type of SrcTie5P.bsearch_tie
 Proof. exact SrcTie5P.bsearch_tie. Qed.
 
 
+(* ---- source tie, sixth wave: ContextInstances::get and ContextInstances::remove (position + swap_remove, the group deleted
+   when empty; a failed `expect` is None) regenerated from src/input_context.rs equal Model/Registry.reg_get / reg_remove, Leibniz ---- *)
+From BEI Require Proofs.SrcTie6P.
+Theorem C07_source_registry_get : ltac:(let t := type of SrcTie6P.ContextInstances_get_tie in exact t).
+Proof. exact SrcTie6P.ContextInstances_get_tie. Qed.
+
+Theorem C07_source_registry_remove : ltac:(let t := type of SrcTie6P.ContextInstances_remove_tie in exact t).
+Proof. exact SrcTie6P.ContextInstances_remove_tie. Qed.
+
+
 Print Assumptions C07_init.
 Print Assumptions C07_op_never_panics.
 Print Assumptions C07_ops_never_panic.
@@ -161,3 +171,5 @@ Print Assumptions C07_app_judgement_transfer.
 Print Assumptions C07_source_registry_add.
 Print Assumptions C07_source_registry_index.
 Print Assumptions C07_source_registry_search.
+Print Assumptions C07_source_registry_get.
+Print Assumptions C07_source_registry_remove.
